@@ -21,6 +21,9 @@ for pid in allp:
         "level_note": r["level_note"],
         "technique": r.get("technique", "contract-based deductive verification (Verus) of function bodies extracted from /repo on every run"),
     })
+missing = [p for p in allp if p not in PROPS and p not in NOT_APPLICABLE]
+if missing:
+    sys.exit(f"mkmanifest: properties neither registered nor declared not-applicable: {missing} (registry.py damaged?)")
 na = [{"property_id": p, "reason": NOT_APPLICABLE.get(p, "not yet built in this session: no check is claimed (see DESIGN.md section 10 build order)")}
       for p in allp if p not in PROPS]
 m = {
